@@ -1152,4 +1152,59 @@ theorem c17_builtin6 (name : String) (args : List ArgOracle) (cfg : Cfg6) (req :
     simp [C17.holds6]
   exact absurd h (by simp)
 
+/-! ### options the built-in plugins never touch -/
+
+theorem filter_other_upd6 (c k : Nat) (v : Bytes) (l : Opts) (h : k ≠ c) :
+    (upd6 c v l).filter (fun o => o.1 == k) = l.filter (fun o => o.1 == k) := by
+  induction l with
+  | nil => simp [upd6, Ne.symm h]
+  | cons o rest ih =>
+    obtain ⟨d, w⟩ := o
+    unfold upd6
+    by_cases hd : d = c
+    · subst hd
+      have : (d == k) = false := by simp [Ne.symm h]
+      simp [List.filter_cons, this]
+    · simp [hd, List.filter_cons, ih]
+
+theorem nbp6_added_keep (c : nbp6.Cfg) (l : List Nat) (k : Nat) (h59 : k ≠ 59) (h60 : k ≠ 60) :
+    (nbp6.added c l).filter (fun o => o.1 == k) = [] := by
+  induction l with
+  | nil => simp [nbp6.added]
+  | cons x rest ih =>
+    unfold nbp6.added
+    split
+    · simp [ih, Ne.symm h59]
+    · split
+      · split
+        · simp [ih, Ne.symm h60]
+        · exact ih
+      · exact ih
+
+theorem preserve_echo_opts4 (cfg : Cfg4) (req : ReqView4) (pre r : Resp4) (stop : Bool)
+    (h : plugHandle4 cfg req pre = (some r, stop)) :
+    lookup 82 r.opts = lookup 82 pre.opts ∧ lookup 61 r.opts = lookup 61 pre.opts ∧
+    lookup 53 r.opts = lookup 53 pre.opts := by
+  cases cfg <;> simp only [plugHandle4, dns4.handle, mtu.handle, netmask.handle, router.handle, leasetime.handle,
+    search.handle4, staticroute.handle, ipv6only.handle, autoconfigure.handle, nbp4.handle, sleep.handle4,
+    serverid4.handle] at h
+  all_goals (repeat' split at h)
+  all_goals (try (simp at h; done))
+  all_goals
+    simp only [Prod.mk.injEq, Option.some.injEq] at h
+    obtain ⟨rfl, _⟩ := h
+    simp [Resp4.update, lookup_upd4_other]
+
+theorem preserve_cid6 (cfg : Cfg6) (req : ReqView6) (pre r : Resp6) (stop : Bool)
+    (h : plugHandle6 cfg req pre = (some r, stop)) :
+    r.opts.filter (fun o => o.1 == 1) = pre.opts.filter (fun o => o.1 == 1) ∧
+    r.opts.filter (fun o => o.1 == 14) = pre.opts.filter (fun o => o.1 == 14) := by
+  cases cfg <;> simp only [plugHandle6, dns6.handle, search.handle6, nbp6.handle, sleep.handle6, serverid6.handle] at h
+  all_goals (repeat' split at h)
+  all_goals (try (simp at h; done))
+  all_goals
+    simp only [Prod.mk.injEq, Option.some.injEq] at h
+    obtain ⟨rfl, _⟩ := h
+    simp [Resp6.update, filter_other_upd6, nbp6_added_keep]
+
 end CoreDhcp
